@@ -39,7 +39,7 @@ type Kind struct {
 	Rep       int    `json:"rep"`
 }
 
-var kinds = []string{"http/uri", "http/uri+noconfheaders", "http/uri+preload", "http/uripost", "http/raw", "http/jsonline", "http/jsonline+preload+shared-client", "connect/uri",
+var kinds = []string{"http/uri", "http/uri+noconfheaders", "http/uri+preload", "http/uripost", "http/raw", "http/jsonline", "http/jsonline+array", "http/jsonline+preload+shared-client", "connect/uri",
 	"http/scenario", "http/scenario+rand", "http/scenario+failing-steps+phout", "grpc/json", "grpc/json+shared-client", "grpc/scenario", "grpc/scenario+failing-steps+phout", "grpc/json+answlog+two-pools", "grpc/scenario+answlog+two-pools", "grpc/json+discard-overflow", "mock/ownership", "http/uri+phout+composite", "schedule/first-use", "http/uri+datemw", "http/uri+dnscache"}
 
 func skipType(t reflect.Type) bool {
@@ -140,7 +140,15 @@ func httpKind(res *vkit.Result, k Kind) {
 			req := fmt.Sprintf("POST /r?vid=%d HTTP/1.1\r\nHost: h.example\r\nX-Vid: %d\r\nContent-Length: %d\r\n\r\n%s", i, i, len(body), body)
 			fmt.Fprintf(&file, "%d tag%d\n%s\n", len(req), i%3, req)
 		case "jsonline":
+			// "+array": the file is one JSON array — its decoded entries are kept by the decoder and
+			// handed out again on every pass, to whichever instance asks
+			if strings.Contains(k.Name, "array") {
+				file.WriteString(map[bool]string{true: "[\n", false: ",\n"}[i == 0])
+			}
 			fmt.Fprintf(&file, `{"host": "h.example", "method": "POST", "uri": "/j?vid=%d", "tag": "tag%d", "headers": {"X-Vid": "%d", "Content-Type": "text/plain"}, "body": "payload vid=%d"}`+"\n", i, i%3, i, i)
+			if strings.Contains(k.Name, "array") && i == entries-1 {
+				file.WriteString("]\n")
+			}
 		}
 	}
 	path := vkit.WriteMem([]byte(file.String()))
